@@ -297,6 +297,9 @@ impl RefState {
 // generation
 // ------------------------------------------------------------------------------------------
 
+/// operand count of a composite: mostly 1..3, the empty composite (a constant) only now and then
+fn width(r: &mut Rng) -> usize { if r.chance(1, 12) { 0 } else { 1 + r.usize(3) } }
+
 fn gen_rq(r: &mut Rng, depth: u32, lo: i64, hi: i64) -> Rq {
     let k = |r: &mut Rng| r.range(lo - 1, hi + 1);
     let leaf = depth == 0 || r.chance(3, 5);
@@ -308,8 +311,8 @@ fn gen_rq(r: &mut Rng, depth: u32, lo: i64, hi: i64) -> Rq {
         }
     } else {
         match r.below(5) {
-            0 | 1 => { let n = r.usize(4); Rq::And((0..n).map(|_| gen_rq(r, depth - 1, lo, hi)).collect()) }
-            2 | 3 => { let n = r.usize(4); Rq::Or((0..n).map(|_| gen_rq(r, depth - 1, lo, hi)).collect()) }
+            0 | 1 => { let n = width(r); Rq::And((0..n).map(|_| gen_rq(r, depth - 1, lo, hi)).collect()) }
+            2 | 3 => { let n = width(r); Rq::Or((0..n).map(|_| gen_rq(r, depth - 1, lo, hi)).collect()) }
             _ => Rq::Not(Box::new(gen_rq(r, depth - 1, lo, hi))),
         }
     }
@@ -328,8 +331,8 @@ fn gen_fl(r: &mut Rng, depth: u32, max_id: i64, allow_unknown: bool) -> Fl {
         }
     } else {
         match r.below(5) {
-            0 | 1 => { let n = r.usize(4); Fl::And((0..n).map(|_| gen_fl(r, depth - 1, max_id, allow_unknown)).collect()) }
-            2 | 3 => { let n = r.usize(4); Fl::Or((0..n).map(|_| gen_fl(r, depth - 1, max_id, allow_unknown)).collect()) }
+            0 => { let n = width(r); Fl::And((0..n).map(|_| gen_fl(r, depth - 1, max_id, allow_unknown)).collect()) }
+            1 | 2 | 3 => { let n = width(r); Fl::Or((0..n).map(|_| gen_fl(r, depth - 1, max_id, allow_unknown)).collect()) }
             _ => Fl::Not(Box::new(gen_fl(r, depth - 1, max_id, allow_unknown))),
         }
     }
@@ -368,13 +371,20 @@ fn gen_case(r: &mut Rng) -> Vec<String> {
         }
         let lim = match r.below(10) {
             0 => "none".to_string(), 1 => "0".to_string(), 2 => (MAX + 1).to_string(), 3 => (n + 1).to_string(),
+            4..=6 => (1 + r.usize(3)).to_string(), // small pages: the limit usually cuts the result
             _ => (1 + r.usize(n)).to_string(),
         };
-        match r.below(8) {
+        match r.below(10) {
             0 => ops.push(format!("q all - {}", f.line())),
             1..=3 => ops.push(format!("q first {lim} {}", f.line())),
             4..=6 => ops.push(format!("q last {lim} {}", f.line())),
-            _ => ops.push(format!("s {} {} {}", 1 + r.usize(n), r.pick(&WORDS), f.line())),
+            7 => ops.push(format!("s {} {} {}", 1 + r.usize(n), r.pick(&WORDS), f.line())),
+            _ => {
+                // the whole of search_ids: every limit class, with / without search part, with / without filter
+                let word = if r.chance(1, 4) { "-" } else { *r.pick(&WORDS) };
+                let fl = if r.chance(1, 5) { "nofilter".to_string() } else { f.line() };
+                ops.push(format!("S {lim} {word} {fl}"));
+            }
         }
     }
     ops
@@ -393,10 +403,29 @@ fn fmt_res(r: &Result<Vec<u64>, DBError>) -> String {
     }
 }
 
+/// `search_ids` breadth constants (factor, cap, default page) as regenerated from the source into the
+/// model (`searchconsts` driver op); the harness needs them only to know how many candidates the index
+/// stage can have handed on.
+static SEARCH_CONSTS: std::sync::OnceLock<(usize, usize, usize)> = std::sync::OnceLock::new();
+fn search_consts() -> (usize, usize, usize) { *SEARCH_CONSTS.get().unwrap_or(&(10, 4096, 10)) }
+
 struct Outcome {
     /// per query op: (op line, implementation answer, model request line, oracle answer or None when the oracle abstains)
     rows: Vec<(String, String, String, Option<String>)>,
     nontrivial: bool,
+    /// input-distribution labels of the case (filter shape, limit class, whether the limit cut the result)
+    labels: Vec<String>,
+}
+
+fn limit_class(limit: Option<usize>, n_full: usize) -> &'static str {
+    match limit {
+        None => "limit:none",
+        Some(0) => "limit:0",
+        Some(l) if l > MAX => "limit:>MAX",
+        Some(l) if l < n_full => "limit:cuts-the-result",
+        Some(l) if l == n_full => "limit:exactly-the-result",
+        Some(_) => "limit:beyond-the-result",
+    }
 }
 
 async fn open_collection() -> Result<(AndaDB, Arc<Collection>), DBError> {
@@ -420,7 +449,7 @@ async fn open_collection() -> Result<(AndaDB, Arc<Collection>), DBError> {
 async fn run_case(ops: &[String]) -> Result<(RefState, Outcome), String> {
     let (_db, c) = open_collection().await.map_err(|e| format!("setup: {e}"))?;
     let mut st = RefState::default();
-    let mut out = Outcome { rows: vec![], nontrivial: false };
+    let mut out = Outcome { rows: vec![], nontrivial: false, labels: vec![] };
     for op in ops {
         let toks: Vec<&str> = op.split(' ').filter(|s| !s.is_empty()).collect();
         match toks.as_slice() {
@@ -467,6 +496,9 @@ async fn run_case(ops: &[String]) -> Result<(RefState, Outcome), String> {
                     }}))
                 };
                 if !full.is_empty() && res.as_ref().is_ok_and(|v| !v.is_empty()) { out.nontrivial = true; }
+                out.labels.push(format!("q:shape:{}", f.shape()));
+                if *which != "all" { out.labels.push(format!("q:{}", limit_class(limit, full.len()))); }
+                out.labels.push(format!("q:matches:{}", if full.is_empty() { "none" } else if full.len() == st.docs.len() { "all-documents" } else { "some" }));
                 out.rows.push((op.clone(), fmt_res(&res), op.clone(), expect.map(|v| match v { Ok(v) => fmt_res(&Ok(v)), Err(()) => "err:complexity".to_string() })));
             }
             ["s", lim, word, rest @ ..] => {
@@ -482,7 +514,60 @@ async fn run_case(ops: &[String]) -> Result<(RefState, Outcome), String> {
                 };
                 if res.as_ref().is_ok_and(|v| !v.is_empty()) { out.nontrivial = true; }
                 // the model gets the candidate list the real BM25 index produced (BM25 ranking is C11's business)
-                let model_req = if cands.is_empty() { String::new() } else { format!("s {limit} {} {}", join(&cands, ","), f.line()) };
+                let (factor, cap, _) = search_consts();
+                let wide = cands.len() > (limit.min(MAX) * factor).min(cap); // see the `S` op: C11's business
+                let expect = if wide { None } else { expect };
+                let model_req = if cands.is_empty() || wide { String::new() } else { format!("s {limit} {} {}", join(&cands, ","), f.line()) };
+                out.rows.push((op.clone(), fmt_res(&res), model_req, expect));
+            }
+            ["S", lim, word, rest @ ..] => {
+                // the whole of `search_ids`: limit none|n, search part present or not, filter present or not
+                let limit: Option<usize> = if *lim == "none" { None } else { Some(lim.parse().map_err(|_| "bad limit")?) };
+                let f = if rest == ["nofilter"] { None } else {
+                    let mut it = rest.iter();
+                    let f = Fl::parse(&mut it).ok_or("bad filter")?;
+                    if it.next().is_some() { return Err("trailing tokens".into()); }
+                    Some(f)
+                };
+                let search = || if *word == "-" { None } else { Some(Search { text: Some(word.to_string()), ..Default::default() }) };
+                let (factor, cap, dflt) = search_consts();
+                let l = limit.unwrap_or(dflt).min(MAX);
+                let top_k = (l * factor).min(cap);
+                // candidates in relevance order: the same search without a filter, as wide as the API allows
+                let cands: Option<Vec<u64>> = match search() {
+                    None => None,
+                    Some(sp) => Some(c.search_ids(Query { search: Some(sp), filter: None, limit: Some(MAX) }).await.map_err(|e| format!("search: {e}"))?),
+                };
+                let res = c.search_ids(Query { search: search(), filter: f.as_ref().map(|f| f.real()), limit }).await;
+                // more candidates than `top_k`: which of them the narrower index call keeps is the text index's
+                // business (C11: top-k is a prefix of top-(k+1)), not this property's - abstain.
+                let abstain = l != 0 && cands.as_ref().is_some_and(|cs| cs.len() > top_k);
+                let full: Vec<u64> = match &f { Some(f) => st.docs.keys().copied().filter(|id| f.sat(&st, *id)).collect(), None => vec![] };
+                let expect = if f.as_ref().is_some_and(|f| !within_budget(f)) { Some("err:complexity".to_string()) }
+                    else if f.as_ref().is_some_and(|f| f.uses_unknown_index()) || abstain { None }
+                    else { Some(fmt_res(&Ok(match (&cands, &f) {
+                        (Some(cs), Some(f)) => cs.iter().copied().filter(|id| f.sat(&st, *id)).take(l).collect::<Vec<_>>(),
+                        (Some(cs), None) => cs.iter().copied().take(l).collect(),
+                        (None, Some(_)) => full.iter().copied().take(l).collect(),
+                        (None, None) => vec![],
+                    }))) };
+                if res.as_ref().is_ok_and(|v| !v.is_empty()) { out.nontrivial = true; }
+                out.labels.push(format!("S:search={} filter={}", if cands.is_some() { "yes" } else { "no" }, f.as_ref().map(|f| f.shape()).unwrap_or("no")));
+                let n_full = match (&cands, &f) {
+                    (Some(cs), Some(f)) => cs.iter().filter(|id| f.sat(&st, **id)).count(),
+                    (Some(cs), None) => cs.len(),
+                    (None, _) => full.len(),
+                };
+                out.labels.push(format!("S:{}", limit_class(limit, n_full)));
+                if let (Some(cs), Some(f)) = (&cands, &f) {
+                    let kept = cs.iter().filter(|id| f.sat(&st, **id)).count();
+                    out.labels.push(format!("S:filter-keeps:{}", if cs.is_empty() { "no-candidates" } else if kept == 0 { "none" } else if kept == cs.len() { "all-candidates" } else { "some" }));
+                }
+                if abstain { out.labels.push("S:abstained(more candidates than top_k)".into()); }
+                let model_req = if abstain { String::new() } else {
+                    format!("S {lim} {} {}", match &cands { None => "none".to_string(), Some(cs) if cs.is_empty() => "-".to_string(), Some(cs) => join(cs, ",") },
+                        f.as_ref().map(|f| f.line()).unwrap_or_else(|| "nofilter".to_string()))
+                };
                 out.rows.push((op.clone(), fmt_res(&res), model_req, expect));
             }
             _ => return Err(format!("bad op: {op}")),
@@ -510,7 +595,7 @@ fn check_case(rt: &tokio::runtime::Runtime, ops: &[String], model: &mut Option<M
     // state-changing ops precede queries in generated cases, but a replay/corpus file may interleave:
     // the model is given the *final* state only when all queries come last.
     let last_state_op = ops.iter().rposition(|o| o.starts_with("doc") || o.starts_with("rm")).unwrap_or(0);
-    let first_query = ops.iter().position(|o| o.starts_with("q ") || o.starts_with("s ")).unwrap_or(ops.len());
+    let first_query = ops.iter().position(|o| o.starts_with("q ") || o.starts_with("s ") || o.starts_with("S ")).unwrap_or(ops.len());
     let model_ok = last_state_op < first_query;
     if let Some(m) = model.as_mut() && model_ok {
         for l in st.model_lines() {
@@ -520,7 +605,7 @@ fn check_case(rt: &tokio::runtime::Runtime, ops: &[String], model: &mut Option<M
     }
     for (op, got, model_req, expect) in &out.rows {
         if record {
-            rep.hit(&format!("op:{}", op.split(' ').take(2).collect::<Vec<_>>().join("-")));
+            rep.hit(&format!("op:{}", if op.starts_with("q ") { op.split(' ').take(2).collect::<Vec<_>>().join("-") } else { op.split(' ').next().unwrap_or("").to_string() }));
             rep.hit(if got.starts_with("ok -") { "answer:empty" } else if got.starts_with("ok") { "answer:nonempty" } else { "answer:error" });
         }
         if let Some(exp) = expect && exp != got {
@@ -533,6 +618,7 @@ fn check_case(rt: &tokio::runtime::Runtime, ops: &[String], model: &mut Option<M
                     (Some(f), "q") if f.is_bare_btree_field() && got.starts_with("ok") => format!("query_{}:bare-btree-field:bounded-page-in-key-order", toks[1]),
                     (Some(f), "s") if f.is_bare_btree_field() && got.starts_with("ok") => "search_ids:bare-btree-field:bounded-page-in-key-order".to_string(),
                     (Some(f), _) => format!("{}:{}", toks[0], f.shape()),
+                    _ if toks[0] == "S" => "S:nofilter".into(),
                     _ => "unparsed".into(),
                 };
                 let mut ctx: Vec<String> = ops.iter().filter(|o| o.starts_with("doc") || o.starts_with("rm")).cloned().collect();
@@ -554,6 +640,7 @@ fn check_case(rt: &tokio::runtime::Runtime, ops: &[String], model: &mut Option<M
         }
     }
     if record {
+        for l in &out.labels { rep.hit(l); }
         let canon = ops.join("|");
         rep.case(&canon, out.nontrivial);
     }
@@ -578,6 +665,15 @@ fn main() {
         }
     }
 
+    if let Some(m) = model.as_mut() {
+        let c = m.ask("searchconsts");
+        let get = |k: &str| c.split(' ').find_map(|kv| kv.strip_prefix(k).and_then(|v| v.strip_prefix('=')).and_then(|v| v.parse::<usize>().ok()));
+        match (get("factor"), get("cap"), get("default")) {
+            (Some(f), Some(cp), Some(d)) => { let _ = SEARCH_CONSTS.set((f, cp, d)); }
+            _ => rep.disagreement("constants", &["searchconsts".into()], &c, "factor=<n> cap=<n> default=<n>"),
+        }
+    }
+
     let mut cases: Vec<(String, Vec<String>)> = vec![];
     if let Some(p) = &args.replay {
         cases.push(("replay".into(), read_replay(p)));
@@ -597,7 +693,7 @@ fn main() {
             let failing = rep.oracle_failures.last().cloned().unwrap();
             let fops: Vec<String> = failing["ops"].as_array().unwrap().iter().map(|x| x.as_str().unwrap().to_string()).collect();
             let small = shrink(fops, |cand| {
-                cand.iter().any(|o| o.starts_with("q ") || o.starts_with("s ")) && {
+                cand.iter().any(|o| o.starts_with("q ") || o.starts_with("s ") || o.starts_with("S ")) && {
                     let mut none = None;
                     let mut scratch = Report::new("C03", &args, "");
                     check_case(&rt, cand, &mut none, &mut scratch, false).0 > 0
